@@ -154,3 +154,68 @@ Lemma eqb_of_forall_below2 (f g : N -> N -> N) (n1 n2 : nat) :
   forall x y, x < N.of_nat n1 -> y < N.of_nat n2 -> f x y = g x y.
 Proof. intros H x y Hx Hy. apply N.eqb_eq. exact (forall_below2 _ n1 n2 H x y Hx Hy). Qed.
 
+
+Lemma forall_below3 (P : N -> N -> N -> bool) (n1 n2 n3 : nat) :
+  forallb (fun a => forallb (fun b => forallb (P a b) (map N.of_nat (seq 0 n3)))
+                            (map N.of_nat (seq 0 n2))) (map N.of_nat (seq 0 n1)) = true ->
+  forall x y z, x < N.of_nat n1 -> y < N.of_nat n2 -> z < N.of_nat n3 -> P x y z = true.
+Proof.
+  intros H x y z Hx Hy Hz.
+  pose proof (forall_below _ n1 H x Hx) as H1. cbv beta in H1.
+  pose proof (forall_below _ n2 H1 y Hy) as H2. cbv beta in H2.
+  exact (forall_below _ n3 H2 z Hz).
+Qed.
+
+Lemma eqb_of_forall_below3 (f g : N -> N -> N -> N) (n1 n2 n3 : nat) :
+  forallb (fun a => forallb (fun b => forallb (fun c => f a b c =? g a b c) (map N.of_nat (seq 0 n3)))
+                            (map N.of_nat (seq 0 n2))) (map N.of_nat (seq 0 n1)) = true ->
+  forall x y z, x < N.of_nat n1 -> y < N.of_nat n2 -> z < N.of_nat n3 -> f x y z = g x y z.
+Proof. intros H x y z Hx Hy Hz. apply N.eqb_eq. exact (forall_below3 _ n1 n2 n3 H x y z Hx Hy Hz). Qed.
+
+(** two bytes of a 16-bit big-endian value *)
+Lemma be_2_split a b : a < 256 -> b < 256 -> be 2 (a * 256 + b) = be 1 a ++ be 1 b.
+Proof.
+  intros Ha Hb. unfold be. cbn [le rev app].
+  replace ((a * 256 + b) mod 256) with b by lia.
+  replace ((a * 256 + b) / 256) with a by lia.
+  rewrite (N.mod_small b 256) by exact Hb. reflexivity.
+Qed.
+
+(** mode-dependent u8 addition that does not overflow *)
+Lemma wadd8_ok {B} m site a b (k : N -> wprog B) : a + b < 256 ->
+  wbind (wadd8 m site a b) k = k (a + b).
+Proof. intros H. unfold wadd8. rewrite add_w_ok by exact H. reflexivity. Qed.
+
+Lemma forall_below4 (P : N -> N -> N -> N -> bool) (n1 n2 n3 n4 : nat) :
+  forallb (fun a => forallb (fun b => forallb (fun c => forallb (P a b c) (map N.of_nat (seq 0 n4)))
+                                              (map N.of_nat (seq 0 n3)))
+                            (map N.of_nat (seq 0 n2))) (map N.of_nat (seq 0 n1)) = true ->
+  forall x y z w, x < N.of_nat n1 -> y < N.of_nat n2 -> z < N.of_nat n3 -> w < N.of_nat n4 ->
+    P x y z w = true.
+Proof.
+  intros H x y z w Hx Hy Hz Hw.
+  pose proof (forall_below _ n1 H x Hx) as H1. cbv beta in H1.
+  pose proof (forall_below _ n2 H1 y Hy) as H2. cbv beta in H2.
+  pose proof (forall_below _ n3 H2 z Hz) as H3. cbv beta in H3.
+  exact (forall_below _ n4 H3 w Hw).
+Qed.
+
+Lemma eqb_of_forall_below4 (f g : N -> N -> N -> N -> N) (n1 n2 n3 n4 : nat) :
+  forallb (fun a => forallb (fun b => forallb (fun c => forallb (fun e => f a b c e =? g a b c e)
+                                                                (map N.of_nat (seq 0 n4)))
+                                              (map N.of_nat (seq 0 n3)))
+                            (map N.of_nat (seq 0 n2))) (map N.of_nat (seq 0 n1)) = true ->
+  forall x y z w, x < N.of_nat n1 -> y < N.of_nat n2 -> z < N.of_nat n3 -> w < N.of_nat n4 ->
+    f x y z w = g x y z w.
+Proof. intros H x y z w Hx Hy Hz Hw. apply N.eqb_eq. exact (forall_below4 _ n1 n2 n3 n4 H x y z w Hx Hy Hz Hw). Qed.
+
+Lemma wr_u24_small' {B} x (k : unit -> wprog B) : x < 256 ^ N.of_nat 3 ->
+  wbind (wr_u24 x) k = WrAll (be 3 x) (k tt).
+Proof.
+  intros H. rewrite pow256_3 in H. unfold wr_u24, U24. apply N.ltb_lt in H. rewrite H. reflexivity.
+Qed.
+Lemma wr_u48_small {B} x (k : unit -> wprog B) : x < 256 ^ N.of_nat 6 ->
+  wbind (wr_u48 x) k = WrAll (be 6 x) (k tt).
+Proof.
+  intros H. rewrite pow256_6 in H. unfold wr_u48, U48. apply N.ltb_lt in H. rewrite H. reflexivity.
+Qed.
